@@ -408,9 +408,15 @@ func engineCaseInvCLI(ctx *Ctx) {
 			}
 		}
 		// the other command that takes a query: `wtf pipeline <query>` (what it prints below the line that repeats the query)
-		for qi := 0; qi < ctx.Pick(3, 4); qi++ {
+		for qi := 0; qi < ctx.Pick(6, 8); qi++ {
 			q := vlib.GenQuery(r, words, 2+r.Intn(3), 0)
-			if len(strings.Fields(q)) < 2 {
+			typo := qi%2 == 1
+			if typo {
+				// a misspelt or partial word (what the keyword scorer does not know, so that whatever else answers is reached)
+				q = vlib.GenQuery(r, words, 1+r.Intn(2), 2)
+				ctx.R.Path("cli-pipeline-misspelt-queries", 1)
+			}
+			if len(strings.Fields(q)) < 2 && !typo || strings.TrimSpace(q) == "" {
 				continue
 			}
 			var q2 string
